@@ -69,7 +69,7 @@ theorem cursor_mode_selects (u : Uni) (k : Key) (deckpam decckm : Bool) (fin : I
   have := cursor_tables _ hk _ hmode
   simp only [encodeXterm, h1, h2, h3, Nat.or_self]
   simp only [] at this
-  rw [this]
+  rw [encodeTables_text _ _ _ _ _ (cursorKeys_special _ hk), this]
 
 /-- **special_keys_exact** (general form of the table part of `key_roundtrip`). For every key with
     a dedicated xterm report (and Tab/Enter/Escape/BackSpace without Alt), every Shift/Alt/Ctrl set
@@ -85,10 +85,13 @@ theorem special_keys_exact :
 /-! ## Character keys: all code points, all `unicode` tables -/
 
 /-- **plain_char_roundtrip.** Any unmodified character key (any code point ≥ 32 below MaxRune, any
-    `unicode` tables, any key modes, whatever text/codes the event carries): the widget writes the
-    character itself and the decoded event matches it. -/
+    `unicode` tables, any key modes, whatever codes the event carries) whose text is absent or is the
+    character itself: the widget writes the character itself and the decoded event matches it.
+    (An event whose text is something else — a whole grapheme cluster, the character caps lock or a
+    layout level produced — is forwarded as that text: `C13Ext.text_forwarded`.) -/
 theorem plain_char_roundtrip (u : Uni) (k : Key) (pam ckm : Bool)
     (hm : xtermMods k = 0) (hk : 32 ≤ k.keycode ∧ k.keycode < maxRune ∧ validRune k.keycode = true)
+    (ht : k.text = [] ∨ k.text = [k.keycode])
     (h127 : u.isUpper k.keycode = true → u.toLower k.keycode ≠ 127) :
     encodeXterm u k pam ckm = renderSeq (.print [k.keycode]) ∧
     keyArrives u k (decodeKey u (.print [k.keycode])) := by
@@ -97,8 +100,8 @@ theorem plain_char_roundtrip (u : Uni) (k : Key) (pam ckm : Bool)
   constructor
   · unfold encodeXterm
     simp only [xm_eq, hm7]
-    rw [encodeTables_char _ _ _ _ hmax (Or.inr (by decide))]
-    simp [strOfRune, hv, renderSeq]
+    rw [encodeTables_char _ _ _ _ _ hmax (Or.inr (by decide))]
+    rcases ht with ht | ht <;> simp [strOfRune, hv, renderSeq, ht]
   · unfold keyArrives
     rw [hm, decodeKey_print u [k.keycode] (by simp) (by simpa using h127)]
     by_cases hu : u.isUpper k.keycode = true
@@ -133,7 +136,7 @@ theorem alt_char_roundtrip (u : Uni) (k : Key) (pam ckm : Bool)
   constructor
   · unfold encodeXterm
     simp only [xm_eq, hm7]
-    rw [encodeTables_char _ _ _ _ hmax (Or.inr (by decide))]
+    rw [encodeTables_char _ _ _ _ _ hmax (Or.inr (by decide))]
     have ha' : k.mods &&& 2 = 2 := ha
     simp [strOfRune, hv, renderSeq, hmax, ModAlt, ModCtrl, ModShift]
     intro _ _ h2; omega
@@ -151,7 +154,8 @@ theorem alt_char_roundtrip (u : Uni) (k : Key) (pam ckm : Bool)
 
 /-- **ctrl_letter_roundtrip.** Ctrl + a lower-case ASCII letter other than h, i, m (whose C0 bytes are
     BackSpace, Tab, Enter): the C0 byte is written and decodes to an event matching (letter, Ctrl).
-    `u.isLower` must say the letter is lower-case (as Go does). -/
+    (`hl` was needed while the code asked `unicode.IsLower`; since 0040837 it compares with 'a'..'z'
+    and the hypothesis is no longer used — kept so that the statement is not changed.) -/
 theorem ctrl_letter_roundtrip (u : Uni) (k : Key) (pam ckm : Bool)
     (hm : xtermMods k = ctrlBit)
     (hk : 97 ≤ k.keycode ∧ k.keycode ≤ 122 ∧ k.keycode ≠ 104 ∧ k.keycode ≠ 105 ∧ k.keycode ≠ 109)
@@ -166,13 +170,13 @@ theorem ctrl_letter_roundtrip (u : Uni) (k : Key) (pam ckm : Bool)
   constructor
   · unfold encodeXterm
     simp only [xm_eq, hm7]
-    rw [encodeTables_char _ _ _ _ hmax (Or.inr (by decide))]
+    rw [encodeTables_char _ _ _ _ _ hmax (Or.inr (by decide))]
     have hc' : k.mods &&& 4 = 4 := hc
     have hv : validRune (k.keycode - 96) = true := by
       have hmr : maxRune = 1114111 := rfl
       simp only [validRune, hmr, Bool.and_eq_true, Bool.not_eq_true', decide_eq_true_eq, Bool.and_eq_false_imp]
       omega
-    simp [strOfRune, hv, renderSeq, hmax, ModAlt, ModCtrl, ModShift, hl, hc']
+    simp [strOfRune, hv, renderSeq, hmax, ModAlt, ModCtrl, ModShift, h97, h122, hc']
   · unfold keyArrives
     rw [hm, decodeKey_c0 u _ (by omega) (by omega)]
     have e : c0Expected (k.keycode - 96) = { keycode := k.keycode, mods := ctrlBit } := by
